@@ -1072,6 +1072,13 @@ func UtxoValidateInsufficientCollateral(
 			totalCollateral.Add(totalCollateral, amount)
 		}
 	}
+	// The collateral balance is what the collateral inputs hold minus what
+	// the collateral return output gives back
+	if collReturn := tx.CollateralReturn(); collReturn != nil {
+		if amount := collReturn.Amount(); amount != nil {
+			totalCollateral.Sub(totalCollateral, amount)
+		}
+	}
 	fee := tx.Fee()
 	if fee == nil {
 		fee = new(big.Int)
